@@ -541,4 +541,45 @@ theorem rollover_shape (old new : Pub) (kid nonce url : Bytes) (si so : SigScrip
         y1.2.1, y1.1, y2.2.1 trivial, y2.2.2.2.1, h.symm, b64_roundtrip _⟩
       exact b64_roundtrip _
 
+
+/-- **advertised alg.** The `alg` header names exactly the scheme the signer is asked to perform:
+    RS256 = RSA with SHA-256, ES256/384/512 = ECDSA on P-256/384/521 with SHA-256/384/512; any other
+    curve is refused. The signer receives the digest of `b64(header) ‖ "." ‖ payload` under that hash
+    (`jwsEncode_ok`). -/
+theorem jwsHasher_spec (p : Pub) :
+    (∀ n e, p = .rsa n e → jwsHasher p = some (asc "RS256", .sha256)) ∧
+    (∀ x y, p = .ec .p256 x y → jwsHasher p = some (asc "ES256", .sha256)) ∧
+    (∀ x y, p = .ec .p384 x y → jwsHasher p = some (asc "ES384", .sha384)) ∧
+    (∀ x y, p = .ec .p521 x y → jwsHasher p = some (asc "ES512", .sha512)) ∧
+    (∀ x y, p = .ec .p224 x y → jwsHasher p = none ∧ ∀ k n u pl sg, jwsEncode p k n u pl sg = .err) := by
+  refine ⟨?_, ?_, ?_, ?_, ?_⟩ <;> intros <;> subst_vars <;> simp [jwsHasher, jwsEncode]
+
+/-! ## non-vacuity -/
+
+example : ∃ sig, rsFixed (sigSize .p256) 1 2 = some sig ∧ sig.length = 64 := by
+  obtain ⟨sig, h1, h2, _⟩ := rs_width .p256 (Or.inl rfl) 1 2 (by decide) (by decide)
+  exact ⟨sig, h1, by simpa [Curve.bits] using h2⟩
+
+example : ∃ sig, rsFixed (sigSize .p521) (2 ^ 520) 0 = some sig ∧ sig.length = 132 := by
+  obtain ⟨sig, h1, h2, _⟩ := rs_width .p521 (Or.inr (Or.inr rfl)) (2 ^ 520) 0
+    (Nat.pow_lt_pow_right (by decide) (by decide)) (Nat.pow_pos (by decide))
+  exact ⟨sig, h1, by simpa [Curve.bits] using h2⟩
+
+example : rsFixed 32 (256 ^ 32) 1 = none := (rsFixed_panics_iff 32 (256 ^ 32) 1).2 (Or.inl (by
+  have := lt_pow_byteLen (256 ^ 32)
+  have h : ¬ byteLen (256 ^ 32) ≤ 32 := fun hle =>
+    absurd (Nat.lt_of_lt_of_le this (Nat.pow_le_pow_right (by decide) hle)) (Nat.lt_irrefl _)
+  omega))
+
+example : ∃ body, rollover (.rsa 35 3) (.rsa 77 3) (asc "k") (asc "n") (asc "u") (.raw [1]) (.raw [2]) = some body := by
+  simp [rollover, rolloverInner, jwsEncode, jwsHasher, Out.json]
+
+example : eab (.rsa 35 3) (asc "u") (asc "k") [1] ≠ none :=
+  fun h => by have := (eab_is_hs256_over_account_jwk (.rsa 35 3) (asc "u") (asc "k") [1]).1.1 h; simp at this
+
+example : hasMember (headerMembers (asc "ES256") (.ec .p256 1 2) [] (asc "n") (asc "u")) "jwk" = true :=
+  (jwk_xor_kid _ _ _ _ _).1
+example : hasMember (headerMembers (asc "ES256") (.ec .p256 1 2) (asc "kid1") (asc "n") (asc "u")) "jwk" = false :=
+  (jwk_xor_kid _ _ _ _ _).1
+
 end XC.C49
